@@ -1295,14 +1295,17 @@ class RealBackend(object):
                         if it.ncomputed != 1:
                             self.viol("C05", "item-once", "item %s of flushed batch notified completion %d times" % (tok, it.ncomputed))
             # closed nested extents: no flush after the waited task completed
+            import bisect
+            fl_at = sorted(rec["at"] for rec in self.flushes)
             for ext in self.closed_extents:
                 ci = ext[0]
                 if ci is None or not ci.done:
                     continue
-                for rec in self.flushes:
-                    if max(ci.done_at, ext[1]) < rec["at"] < ext[2]:
-                        self.viol("C05", "flush-after-done", "flush inside the synchronous wait for %s after it completed" % ci.token)
-                        break
+                lo = max(ci.done_at, ext[1])
+                j = bisect.bisect_right(fl_at, lo)
+                if j < len(fl_at) and fl_at[j] < ext[2]:
+                    self.viol("C05", "flush-after-done", "flush inside the synchronous wait for %s after it completed" % ci.token)
+                    break
         if self.threaded:
             return
         # drop the harness' own references to tasks, as user code leaving scope would, so that
